@@ -1,4 +1,4 @@
-\* repaired model: chain 0..11 (+2), Retained 1, two-block batches, coalescing 2, min-age on, 8 operations, cancel/crash after any batch; exhaustive: 1 810 215 distinct states (13 516 106 generated), 93 s on 8 workers
+\* repaired model: chain 0..11 (+2), Retained 1, two-block batches, coalescing 2, min-age on, 8 operations, cancel/crash after any batch, event-filter windows of 4 blocks; exhaustive: 2 377 833 distinct states (18 663 567 generated), 6 min on 4 busy workers with coverage
 CONSTANTS
   MaxH = 13
   InitH = 11
